@@ -150,3 +150,139 @@ func isNilConv(info *types.Info, e ast.Expr) bool {
 	}
 	return false
 }
+
+// c19R5 (C19, added after seed C19-m5): "delivers every message sent while it is open": the creating peer may send as
+// soon as its OnOpen fires, i.e. before the accepting peer's OnDataChannel handler (where OnMessage is registered) has
+// returned. The accept loop therefore starts the channel's read loop (DataChannel.handleOpen) only after receiving from
+// the done channel of SCTPTransport.onDataChannel. Rule (ordering, AST + types): in acceptDataChannels every call of
+// DataChannel.handleOpen is preceded, in its own or an enclosing statement list, by a statement that is an
+// unconditional receive `<-X` with X a call of SCTPTransport.onDataChannel (or a single-definition local holding one);
+// a receive that is one case of a select with alternatives is not a wait.
+func c19R5(c *Ctx) {
+	r := c.R
+	const rule = "C19.R5"
+	fi := c.mustFunc(rule, "", "SCTPTransport.acceptDataChannels")
+	od := c.mustFunc(rule, "", "SCTPTransport.onDataChannel")
+	ho := c.mustFunc(rule, "", "DataChannel.handleOpen")
+	if fi == nil || od == nil || ho == nil {
+		return
+	}
+	info := fi.Pkg.TypesInfo
+	g := c.P.GraphOf(fi)
+	isDoneChan := func(e ast.Expr) bool {
+		e = ast.Unparen(e)
+		if id, ok := e.(*ast.Ident); ok && g != nil {
+			if vv, ok := info.Uses[id].(*types.Var); ok {
+				if rhs, _ := g.UniqueDef(vv); rhs != nil {
+					e = ast.Unparen(rhs)
+				}
+			}
+		}
+		call, ok := e.(*ast.CallExpr)
+		return ok && core.Callee(info, call) == od.Obj
+	}
+	isWait := func(s ast.Stmt) bool {
+		var x ast.Expr
+		switch v := s.(type) {
+		case *ast.ExprStmt:
+			x = v.X
+		case *ast.AssignStmt:
+			if len(v.Rhs) == 1 {
+				x = v.Rhs[0]
+			}
+		}
+		if x == nil {
+			return false
+		}
+		u, ok := ast.Unparen(x).(*ast.UnaryExpr)
+		return ok && u.Op.String() == "<-" && isDoneChan(u.X)
+	}
+	n := 0
+	var stack []ast.Node
+	ast.Inspect(fi.Decl.Body, func(x ast.Node) bool {
+		if x == nil {
+			stack = stack[:len(stack)-1]
+			return true
+		}
+		stack = append(stack, x)
+		call, ok := x.(*ast.CallExpr)
+		if !ok || core.Callee(info, call) != ho.Obj {
+			return true
+		}
+		n++
+		waited := false
+		// walk outwards: in every enclosing statement list, look at the statements before the one containing the call
+		for i := len(stack) - 1; i > 0 && !waited; i-- {
+			if _, isLit := stack[i].(*ast.FuncLit); isLit {
+				break // a closure runs at another time
+			}
+			var list []ast.Stmt
+			switch b := stack[i-1].(type) {
+			case *ast.BlockStmt:
+				list = b.List
+			case *ast.CaseClause:
+				list = b.Body
+			case *ast.CommClause:
+				list = b.Body
+			default:
+				continue
+			}
+			for _, s := range list {
+				if ast.Node(s) == stack[i] {
+					break
+				}
+				if isWait(s) {
+					waited = true
+					break
+				}
+			}
+		}
+		r.Cells++
+		r.Check(waited, rule, sprintf("acceptDataChannels|handleOpen#%d|after-unconditional-wait-for-OnDataChannel-handler", n), c.P.Pos(call.Pos()),
+			"the read loop starts only after the OnDataChannel handler has returned",
+			"handleOpen is not preceded by an unconditional receive from onDataChannel's done channel: with a slow OnDataChannel handler the read loop starts before OnMessage is registered and messages the creator already sent are read and dropped")
+		return true
+	})
+	if n == 0 {
+		r.Undecided(rule, "acceptDataChannels|handleOpen", c.P.Pos(fi.Decl.Pos()), "no call of DataChannel.handleOpen in acceptDataChannels")
+	}
+	// the done channel is closed only after the handler returned: in onDataChannel, a close(done) inside a closure follows the handler call
+	closes, handlerCalls, bad := 0, 0, ""
+	ast.Inspect(od.Decl.Body, func(x ast.Node) bool {
+		fl, ok := x.(*ast.FuncLit)
+		if !ok {
+			return true
+		}
+		seenHandler := false
+		for _, s := range fl.Body.List {
+			es, ok := s.(*ast.ExprStmt)
+			if !ok {
+				continue
+			}
+			call, ok := es.X.(*ast.CallExpr)
+			if !ok {
+				continue
+			}
+			if id, ok := call.Fun.(*ast.Ident); ok {
+				if _, isB := od.Pkg.TypesInfo.Uses[id].(*types.Builtin); isB && id.Name == "close" {
+					closes++
+					if !seenHandler {
+						bad = "close(done) precedes the handler call in the goroutine"
+					}
+					continue
+				}
+				if _, isV := od.Pkg.TypesInfo.Uses[id].(*types.Var); isV {
+					seenHandler = true
+					handlerCalls++
+				}
+			}
+		}
+		return true
+	})
+	r.Cells++
+	if closes == 0 || handlerCalls == 0 {
+		r.Undecided(rule, "onDataChannel|done-closed-after-handler", c.P.Pos(od.Decl.Pos()), "handler goroutine with handler(dc); close(done) not recognised")
+	} else {
+		r.Check(bad == "", rule, "onDataChannel|done-closed-after-handler", c.P.Pos(od.Decl.Pos()), "done is closed after the handler returned", bad)
+	}
+}
